@@ -58,6 +58,13 @@ func (t *EventTimer) Reset(timeout time.Duration) {
 		return
 	}
 
+	if timeout <= 0 {
+		// A zero (or negative) interval, e.g. HeartBtInt=0 taken from a Logon, means "no timer":
+		// re-arming with it would fire immediately, and each firing re-arms it again.
+		t.timer.Stop()
+		return
+	}
+
 	t.timer.Reset(timeout)
 }
 
